@@ -2,6 +2,7 @@
 
 Only the part of C16 that is visible in the shape of `get_route` and its helpers is decided here (see EXPLANATION)."""
 from engine import *
+import linforms
 import ordimpls
 import provenance
 import guards
@@ -835,3 +836,4 @@ def r16n(F):
 	return out
 
 RULES.append(('16.n', 'Direction::select_node_id: NodeOne is the lesser, NodeTwo the greater node id (BOLT 7 convention; variant-return table)', r16n))
+RULES.append(('16.K', 'constant census of linear forms: every comparison (normalised to sum >= K over name-free atoms, a comparison and its negation being one form) and every maximal arithmetic expression of a reviewed function keeps its coefficients and its constant - a dropped or added `+ 1` / `- 1`, `<` for `<=` inside a computed bound, a scale factor applied twice or not at all, swapped operands of a comparison (rules/linforms.py; shapes that appear or disappear are not judged, the guard / arithmetic censuses judge those)', lambda F: linforms.for_property(F, 'C16', '16.K')))
